@@ -7,7 +7,7 @@
     That the implementation's incrementally maintained reference index equals
     the recomputed one after every transaction is the correspondence check
     (observable t_refs) and the Go oracle. *)
-From LOV Require Import Db.RefsProofs.
+From LOV Require Import Db.RefsProofs Db.RefsStrong.
 
 (** a transaction whose candidate state has a dangling strong reference is
     rejected with a referential integrity violation *)
@@ -42,3 +42,22 @@ Theorem C04_rejection_classes : forall S w e,
   process_refs S w = Err e -> e = ERefInt \/ e = EConstraint \/ e = EOther.
 Proof. exact process_refs_errors. Qed.
 Print Assumptions C04_rejection_classes.
+
+(** no strong reference to a missing row: garbage collection removes only
+    rows nobody strongly references and pruning weak references neither
+    removes rows nor adds references, so what the candidate-state check
+    established survives all rounds ... *)
+Theorem C04_no_dangling_strong_reference_after_processing : forall S w d',
+  process_refs S w = Ok d' -> dangling_strong S d' = false.
+Proof. exact process_refs_no_dangling. Qed.
+Print Assumptions C04_no_dangling_strong_reference_after_processing.
+
+(** ... in every committed state, after every history from the empty database *)
+Theorem C04_no_dangling_strong_reference_after_every_history : forall S h d,
+  dangling_strong S d = false -> dangling_strong S (run_history S d h) = false.
+Proof. exact no_dangling_after_history. Qed.
+Print Assumptions C04_no_dangling_strong_reference_after_every_history.
+
+Theorem C04_empty_database_has_no_dangling_reference : forall S, dangling_strong S ∅ = false.
+Proof. exact no_dangling_empty. Qed.
+Print Assumptions C04_empty_database_has_no_dangling_reference.
